@@ -23,6 +23,18 @@ CLAIMED = {
         design_ref="DESIGN.md 4 (C13)",
         note="T_C13_truncated is proved for different source/target widths only (same-width cases by example + correspondence; UTF-8 into char passes a partial character through: known finding F39). Lossless/truncated theorems assume well-formed text (ill-formed text: progress + correspondence). Defects F05 F06(single unit) F37 F38 F42 found here were repaired.",
         technique="Coq proof (carry-over invariant of the chunked decoder over the UTF model, for every chunk size) with extracted-model vs implementation correspondence"),
+    "C04": dict(
+        category="proof",
+        text="Coq theorems T_C04_* (coq/Properties_C04.v, 24): for every pair of the 13 integer kinds (and any widths) and every in-range source value, the model of Convert's integer-to-integer path and of ConvertByPolicy/SafeNumberCast returns the same value iff it fits the target and OutOfRange otherwise, never an altered value; the policy layer turns that into throw / keep-old-value exactly as configured, for any non-convertible pair into MismatchedTypes; integer->float/double accepts exactly the integers the target represents exactly and is total (no cast UB); double->float accepts exactly the doubles that are floats (Flocq binary32/binary64), float->double is exact; floating->integer is refused. Tied to /repo by correspondence: all type pairs x boundary neighbourhoods of every width, exact-rational oracle for the floating cases, built with -fsanitize=float-cast-overflow. Defects F44 (cast UB) and F45 (lost MismatchedTypes) found here were repaired (30e94fb, 76c37b6).",
+        design_ref="DESIGN.md 4 (C04)",
+        note="The floating-point theorems use Flocq and therefore the standard library's real-number axioms (named in the evidence trusted base). Only the conversion core (Convert / SafeNumberCast / ConvertByPolicy) is modelled; that every archive funnels numbers through it is checked by the archive families (C07, C08, C09).",
+        technique="Coq proof (integer range arithmetic with lia; Flocq binary32/binary64 for the floating cases) with extracted-model vs implementation correspondence"),
+    "C16": dict(
+        category="proof",
+        text="PARTIAL (floating-point text is correspondence only). Coq theorems T_C16_* (coq/Properties_C16.v, 20): for every integer type and string width, printing then parsing returns the same value (to_chars buffer always sufficient); parsing is total on every unit string and classifies it exactly as value / invalid / out of range against the literal grammar and the target range, never wrapping; results are independent of the code-unit width; bool literals likewise. Refuted with exact classes and proved outside them: '-' digits into unsigned targets is invalid instead of out-of-range (F46, known finding: the repair breaks a pinned test), fractional-and-out-of-range ordering, std::isdigit domain. Tied to /repo by correspondence: all 8/16-bit values x 4 widths x 5 types, grammar-generated literals, from_chars/to_chars model validated against libstdc++ on every run; floating text: exact-rational oracle on boundary and random patterns, thorough tier all 2^32 float patterns.",
+        design_ref="DESIGN.md 4 (C16)",
+        note="std::from_chars/to_chars for integers are MODELLED from [charconv] and validated per run; floating-point to_chars/from_chars (third party) are not modelled in Coq: that half of the property is decided by correspondence against an exact-rational oracle only.",
+        technique="Coq proof (digit-string arithmetic by induction, range classification with lia) with extracted-model vs implementation correspondence; floating-point text by exact-rational differential oracle"),
     "C17": dict(
         category="proof",
         text="Coq theorems T_C17_* (coq/Properties_C17.v, closed under the global context) over a model of KeyValueProxy::VisitArgs / SerializationContext::AddValidationError / the built-in validators for arbitrary classes (any fields, any validator lists, any documents): a load throws ValidationException iff some validator fails; with maxValidationErrors = 0 the exception carries exactly the failing paths with exactly their failing messages in declaration order (repeated keys accumulate); Required/Range/MinSize/MaxSize follow the documented semantics with inclusive bounds; validation never changes loaded values. The capped statement is refuted with its exact class (F32, known finding) and proved outside it. Tied to /repo by correspondence through the real JSON, MsgPack and CSV archives on a catalogue of validated classes (flat, nested, in arrays/maps) with every field state (valid, at/inside/outside each bound, absent, null, mismatched-and-skipped) and max in {0,1,2,3,100}.",
